@@ -31,6 +31,7 @@ EXPECT = {
     'c12c_context_children_remove_while_iterating': ['C12', 'C18'],
     'c19b_dead_flag_set_by_frontend': ['C19', 'C04'],
     'c07c_pending_miscount_on_enqueue_death': ['C07', 'C08'],
+    'c01d_is_child_by_recycled_ident': ['C01', 'C04'],
 }
 # changes that are harmless on the current HEAD by construction (a later fix: commit made the trigger unreachable)
 NEUTRALISED = {
